@@ -690,7 +690,7 @@ class RZILTransformer(Transformer):
         assignment = self.chk_hybrid_dep(self.add_op(assignment))
         if isinstance(items[2], Assignment):
             return self.chk_hybrid_dep(
-                self.add_op(Sequence("seq", [assignment, items[2]]))
+                self.add_op(Sequence("seq", [items[2], assignment]))
             )
         return assignment
 
